@@ -14,6 +14,7 @@ import (
 	"errors"
 	"fmt"
 	"io"
+	"log/slog"
 	"net"
 	"net/netip"
 	"os"
@@ -128,7 +129,14 @@ func simStart(g *api.Global) (*simNet, error) {
 	table.SelectionOptions = oc.RouteSelectionOptionsConfig{}
 	table.UseMultiplePaths = oc.UseMultiplePathsConfig{}
 	n := &simNet{t0: time.Now()}
-	n.s = NewBgpServer()
+	if os.Getenv("VERIF_SERVER_LOG") != "" {
+		// development aid: the server's own log on stderr
+		lv := new(slog.LevelVar)
+		lv.Set(slog.LevelDebug)
+		n.s = NewBgpServer(LoggerOption(slog.New(slog.NewTextHandler(os.Stderr, &slog.HandlerOptions{Level: lv})), lv))
+	} else {
+		n.s = NewBgpServer()
+	}
 	go n.s.Serve()
 	if g.ListenPort == 0 {
 		g.ListenPort = -1
